@@ -106,7 +106,7 @@ def purity(chk, cat):
             else:
                 chk.violation('%s:purity:%s' % (cat, d), '%s(%s) returns different line sets in different processes / for different file numbers: %r' % (fn_name, d, sorted(seen)),
                               {'job': 'analyze', 'detector': d, 'source': text, 'observed': sorted(seen)})
-        chk.sample({'purity': '%s(%s)' % (fn_name, d), 'paths (iteration orders)': len(paths), 'lines': sorted(results)[:1]}) if d in ('constant_variables', 'constructor_order', 'floating_pragma') else None
+        chk.sample({'purity': '%s(%s)' % (fn_name, d), 'paths (iteration orders)': len(paths), 'lines': sorted(results, key=repr)[:1]}) if d in ('constant_variables', 'constructor_order', 'floating_pragma') else None
 
 
 def relocate(v, starts, file_no):
@@ -162,6 +162,13 @@ def stress_predecessors(chk):
 
     def blocks(n, w):
         return 'pragma solidity 0.8.16;\ncontract D {\n    uint256 x;\n    function f() public {\n        %s%s%s\n    }\n}\n' % ('{ ' * n, 'x = x + 1; ' * w, ' }' * n)
+    def staircase(n, k):
+        """n nested calls, every level has k further arguments: whatever level an analysis stops at, it stops in front of k + 1 siblings"""
+        e_ = 'x + 1'
+        for i in range(n):
+            e_ = 'g(%s%s)' % ('y, ' * k, e_)
+        return 'pragma solidity 0.8.16;\ncontract D {\n    uint256 x;\n    function f() public {\n        %s;\n    }\n}\n' % e_
+    _STRESS['calls nested 600 deep with 24 arguments at every level'] = chk.native.file(staircase(600, 24))
     _STRESS['600 statements inside blocks nested 600 deep'] = chk.native.file(blocks(600, 600))
     _STRESS['an expression nested 1200 deep'] = chk.native.file(nest(1200, '(', ')'))
     _STRESS['a file the parser rejects'] = chk.native.file('pragma solidity 0.8.16;\ncontract D { function f( public { x = ; } }\n')
@@ -171,6 +178,150 @@ def stress_predecessors(chk):
         _STRESS['a file with 2000 functions'] = chk.native.file('pragma solidity 0.8.16;\ncontract D {\n%s}\n' % ''.join(
             '    function f%d(uint256 a) public returns (uint256) { return a + %d; }\n' % (i, i) for i in range(2000)))
     return _STRESS
+
+
+def scalar_statics(program):
+    """statics of the crate that hold one atomic integer / flag: (name, value type)"""
+    out = []
+    for name, fl in program.items():
+        f = fl[0]
+        if getattr(f, 'kind', '') == 'static':
+            m = re.match(r'^(?:std::sync::atomic::)?Atomic(?:<(\w+)>|(Usize|Isize|Bool|U8|U16|U32|U64|I8|I16|I32|I64))$', f.ret.strip())
+            if m:
+                out.append((name, (m.group(1) or m.group(2).lower())))
+    return out
+
+
+def state_dependence(chk, cat):
+    """only when the crate has process-wide state: analyze_for_* on the probe from an ARBITRARY value of every scalar static (whatever
+    earlier or concurrent calls may have left there). A verdict that depends on that value is a candidate; it is reported only after
+    a native call history that changes the verdict has been found (repeated stress predecessors), otherwise it stays undecided."""
+    e = chk.engine()
+    statics = scalar_statics(e.program)
+    if not statics:
+        return
+    fn_name, enum = ENTRY[cat]
+    fn = e.func(fn_name)
+    from .. import reportlib as rl
+    from ..engine import Adt
+    name_to_variant = {n: v for v, n in rl.CATS[cat]['table']}
+    b0 = sol.TreeBuilder()
+    su0 = probe_file(b0)
+    text, starts = sol.print_source(su0, wrap_params=True)
+    su = relocate(su0, starts, Int(0, 'usize'))
+    e.stubs['parse'] = lambda en, args, fr, callee: ok(Tuple((su, VecV(()))))
+    gvars = {}
+    for name, ty in statics:
+        if ty == 'bool':
+            gvars[name] = z3.Bool('g_' + name)
+            e.global_presets[name] = lambda en, v=gvars[name]: Adt('Atomic', None, (v,))
+        else:
+            from ..mirparse import INT_TYPES
+            w = INT_TYPES[ty][0]
+            gvars[name] = z3.BitVec('g_' + name, w)
+            e.global_presets[name] = lambda en, v=gvars[name], t=ty: Adt('Atomic', None, (Int(v, t),))
+    confirmed = None
+    for d in PROBE_DETECTORS[cat]:
+        pat = Adt(enum, name_to_variant[d])
+        try:
+            paths = e.explore(lambda en: en.call_mir(fn, [Str(text), Int(0, 'usize'), pat]), max_paths=5000)
+        except Unsupported as u:
+            chk.undecide('%s(%s) from an arbitrary process state: %s' % (fn_name, d, u)); continue
+        if any(r.outcome == 'unsupported' for r in paths):
+            chk.undecide('%s(%s) from an arbitrary process state: %s' % (fn_name, d, [r.value for r in paths if r.outcome == 'unsupported'][0])); continue
+        results = {}
+        for r in paths:
+            key = ('panic', r.value.msg) if r.outcome == 'panic' else tuple(sorted(x.v for x in r.value.items if x.concrete))
+            results.setdefault(key, r)
+        if len(results) <= 1:
+            chk.ok(); continue
+        # which value of the statics gives a verdict other than the one of a fresh process?
+        fresh = [k for k, r in results.items() if z3.Solver().check(*r.pc, *[(v == 0 if not z3.is_bool(v) else z3.Not(v)) for v in gvars.values()]) == z3.sat]
+        witness = None
+        for k, r in results.items():
+            if k in fresh:
+                continue
+            sv = z3.Solver(); sv.add(*r.pc)
+            if sv.check() == z3.sat:
+                witness = (k, {n: str(sv.model().eval(v, model_completion=True)) for n, v in gvars.items()})
+                break
+        if confirmed:
+            chk.undecide('%s(%s): the verdict depends on process-wide state as well (same statics as %s, not replayed again)' % (fn_name, d, confirmed))
+            continue
+        history = native_history_search(chk, cat, d, text)
+        if history is None:
+            chk.undecide('%s(%s): the verdict depends on process-wide state (%s gives %r instead of %r); no call history that reaches such a state was found' % (
+                fn_name, d, witness[1] if witness else '?', witness[0] if witness else '?', fresh[:1]))
+        else:
+            rounds, alone, got = history
+            confirmed = d
+            chk.violation('%s:state:%s' % (cat, d), '%s(%s) on the same file returns %r in a fresh process and %r after %d rounds of stress predecessors in the same process '
+                          '(symbolically: the verdict depends on the statics %r, e.g. %s)' % (fn_name, d, alone, got, rounds, sorted(gvars), witness[1] if witness else '?'),
+                          {'job': 'analyze history', 'detector': d, 'category': cat, 'source': text, 'rounds': rounds, 'predecessors': sorted(stress_predecessors(chk)), 'alone': alone, 'after': got})
+    chk.sample({'state dependence': 'arbitrary initial value of the statics %r, %d detectors of %s' % (sorted(gvars), len(PROBE_DETECTORS[cat]), cat)})
+
+
+def state_sequences(chk, cat):
+    """only when the crate has process-wide state: two calls on ONE path, the state the first leaves behind is what the second finds.
+    First call: an equal-length re-layout of the probe under the same file number; second call: the probe. The second result must be
+    the result of the probe in a fresh process."""
+    e = chk.engine()
+    fn_name, enum = ENTRY[cat]
+    fn = e.func(fn_name)
+    from .. import reportlib as rl
+    from ..engine import Adt
+    name_to_variant = {n: v for v, n in rl.CATS[cat]['table']}
+    su0 = probe_file(sol.TreeBuilder())
+    text, starts = sol.print_source(su0, wrap_params=True)
+    other = twin(text)                      # same bytes except line feeds <-> blanks: every offset is the same, the lines are not
+    su = relocate(su0, starts, Int(0, 'usize'))
+    e.stubs['parse'] = lambda en, args, fr, callee: ok(Tuple((su, VecV(()))))
+    for d in PROBE_DETECTORS[cat]:
+        pat = Adt(enum, name_to_variant[d])
+        lines = lambda r: ('panic', r.value.msg) if r.outcome == 'panic' else tuple(sorted(x.v if x.concrete else str(x.v) for x in r.value.items))
+        try:
+            alone = e.explore(lambda en: en.call_mir(fn, [Str(text), Int(0, 'usize'), pat]), max_paths=2000)
+
+            def both(en):
+                en.call_mir(fn, [Str(other), Int(0, 'usize'), pat])
+                return en.call_mir(fn, [Str(text), Int(0, 'usize'), pat])
+            seq = e.explore(both, max_paths=2000)
+        except Unsupported as u:
+            chk.undecide('%s(%s) after an equal-length file (one path): %s' % (fn_name, d, u)); continue
+        if any(r.outcome == 'unsupported' for r in alone + seq):
+            chk.undecide('%s(%s) after an equal-length file (one path): %s' % (fn_name, d, [r.value for r in alone + seq if r.outcome == 'unsupported'][0])); continue
+        a, b_ = {lines(r) for r in alone}, {lines(r) for r in seq}
+        if a == b_:
+            chk.ok(); continue
+        p_main, p_twin = chk.native.file(text), chk.native.file(other)
+        nat = chk.native.run([['analyze', cat, d, p_main]])[0], chk.native.run([['analyze', cat, d, p_twin], ['analyze', cat, d, p_main]])[1]
+        chk.validated += 1
+        if nat[0] == nat[1]:
+            chk.undecide('%s(%s): on one symbolic path the verdict after an equal-length file is %r instead of %r; the compiled code does not show it' % (fn_name, d, sorted(b_), sorted(a)))
+        else:
+            chk.violation('%s:sequence:after-an-equal-length-file' % cat, '%s on the same file returns %r when analysed after an equal-length file, %r when analysed alone '
+                          '(decided on one symbolic path through both calls: %r vs %r)' % (d, nat[1], nat[0], sorted(b_), sorted(a)),
+                          {'job': 'analyze sequence', 'detector': d, 'sequence': 'after an equal-length file', 'source': text, 'other_source': other, 'alone': nat[0], 'in_sequence': nat[1]})
+    chk.sample({'state sequences': 'two calls on one path (equal-length re-layout first), %d detectors of %s' % (len(PROBE_DETECTORS[cat]), cat)})
+
+
+def native_history_search(chk, cat, d, text, max_rounds=60):
+    """the compiled code, one process: [all stress predecessors, then the probe] repeated; -> (rounds, verdict alone, verdict then) at the
+    first round after which the probe's verdict differs from its verdict in a fresh process, None if it never does"""
+    p_main = chk.native.file(text)
+    alone = chk.native.run([['analyze', cat, d, p_main]])[0]
+    pres = list(stress_predecessors(chk).values())
+    jobs = []
+    for _ in range(max_rounds):
+        jobs += [['bigstack', 'analyze', cat, d, p] for p in pres] + [['analyze', cat, d, p_main]]
+    res = chk.native.run(jobs)
+    chk.validated += 1
+    per = len(pres) + 1
+    for k in range(max_rounds):
+        r = res[k * per + per - 1]
+        if r != alone:
+            return k + 1, alone, r
+    return None
 
 
 def native_sequences(chk):
@@ -267,6 +418,10 @@ def body(chk):
         purity(chk, cat)
         dir_model(chk, cat)
     state = global_state_scan(chk)
+    if state:
+        for cat in PROBE_DETECTORS:
+            state_dependence(chk, cat)
+            state_sequences(chk, cat)
     if state:
         chk.undecide('the crate mentions global / thread-local state (%r): the symbolic claim does not cover it, native call sequences decide' % (state[:4] if isinstance(state, list) else state,))
     native_sequences(chk)
